@@ -248,3 +248,75 @@ def make_pilot(pm, uid, resource='local.localhost'):
 # the documented final states, by value: oracles must not read the repository's
 # module-level (mutable) `rps.FINAL` list, which code under test can change
 FINAL_STATES = (rps.DONE, rps.FAILED, rps.CANCELED)
+
+
+# ------------------------------------------------------------------------------
+#
+# a real Session without its constructor: the sandbox and resource config
+# methods which client components call are the repository's
+#
+_RCFGS = None
+
+
+def _rcfgs():
+    '''resource configs, loaded the way Session._init_cfg_from_scratch does'''
+    global _RCFGS
+    if _RCFGS is None:
+        from radical.pilot.resource_config import ResourceConfig
+        raw    = ru.Config('radical.pilot.resource', name='*', expand=False)
+        _RCFGS = ru.Config()
+        for site in raw:
+            _RCFGS[site] = ru.Config()
+            for res, rcfg in raw[site].items():
+                _RCFGS[site][res] = ResourceConfig(rcfg)
+    return _RCFGS
+
+
+class RealSession(rp.Session):
+    '''
+    rp.Session with only the constructor replaced: the sandbox and resource
+    config methods which the tmgr scheduler and the stagers call are the real
+    ones.
+    '''
+
+    def __init__(self, uid, client_sandbox, reg, path):          # noqa
+        self._uid   = uid
+        self._role  = self._DEFAULT
+        self._reg   = reg
+        self._cfg   = ru.Config(from_dict={'sid'           : uid,
+                                           'path'          : path,
+                                           'reg_addr'      : 'mem://reg',
+                                           'client_sandbox': client_sandbox})
+        self._rcfgs = _rcfgs()
+        self._rcfg  = ru.Config()
+        self._log   = NullLog()
+        self._prof  = NullProf()
+        self._rep   = NullProf()
+        self._tmgrs = dict()
+        self._pmgrs = dict()
+        self._closed = False
+        self.logs   = list()
+
+        # as in Session.__init__
+        self._cache_lock = ru.RLock()
+        self._cache      = {'endpoint_fs'      : dict(),
+                            'resource_sandbox' : dict(),
+                            'session_sandbox'  : dict(),
+                            'pilot_sandbox'    : dict(),
+                            'client_sandbox'   : self._cfg.client_sandbox,
+                            'js_shells'        : dict(),
+                            'fs_dirs'          : dict()}
+
+    def _get_logger(self, name, level=None, debug=None):
+        log = NullLog()
+        self.logs.append((name, log))
+        return log
+
+    def _get_profiler(self, name):
+        return NullProf()
+
+    def _get_reporter(self, name):
+        return NullProf()
+
+    def close(self, *args, **kwargs):
+        pass
